@@ -74,9 +74,15 @@ def handle (op : String) (j : Json) : Option (Except String Json) :=
       | .ok _ => do let l ← getNatList j "rows"; pure (some l)
       | .error _ => pure none
     let fuel := (j.getObjValAs? Nat "fuel").toOption.getD 100000
+    -- the decidable hypotheses of `VL.C07.evaluate_ok_sound`, evaluated on this very input
+    let hyp : List (String × Json) :=
+      [("votes_ok", toJson (votesOk votes)),
+       ("init_ok", match initState div q votes total with
+          | .ok s0 => toJson (stateOk q votes s0)
+          | .error _ => Json.null)]
     pure (match evaluate div q votes total rows fuel with
-      | .ok o => outcomeJson o
-      | .error e => errJson e)
+      | .ok o => (outcomeJson o).mergeObj (Json.mkObj hyp)
+      | .error e => (errJson e).mergeObj (Json.mkObj hyp))
   | "biprop_init" => some do
     let dn ← j.getObjValAs? String "divisor"
     let div ← match divByName dn with
